@@ -21,7 +21,7 @@ def systems(tier):
         E.SystemSpec([(M("CCCO"), 20), (M("CC(C)O"), 30), (M("CCOC"), 50)], 100.0, "isomers 20/30/50"),
         E.SystemSpec([(M("CCCO"), 0), (M("CC(C)O"), 30), (M("CCOC"), 70)], 100.0, "isomers 0/30/70"),
         E.SystemSpec([(M("CCCO"), Fraction(1, 2)), (M("CC(C)O"), Fraction(75, 2)), (M("CCOC"), 62)], 100.0, "isomers 0.5/37.5/62"),
-        E.SystemSpec([(M("CCCO"), Fraction(5, 2)), (M("CC(C)O"), Fraction(25, 2)), (M("CCOC"), 60), (M("COCC"), 25)], 100.0, "isomers 2.5/12.5/60/25"),
+        E.SystemSpec([(M("CCCCO"), Fraction(5, 2)), (M("CCC(C)O"), Fraction(25, 2)), (M("CCOCC"), 60), (M("CC(C)(C)O"), 25)], 100.0, "isomers 2.5/12.5/60/25"),
         E.SystemSpec([(alk(1), 10), (alk(100), 90)], 2000.0, "1:100 10/90"),
     ]
     return out
